@@ -91,7 +91,7 @@ class Obligation:
 class Ctx:
     """State of one execution path."""
 
-    FEAS_TIMEOUT_MS = 400
+    FEAS_TIMEOUT_MS = 1500
 
     def __init__(self, trail: list[int], worklist: list, path_id: int, feas: bool = True):
         self.trail = list(trail)
@@ -115,6 +115,7 @@ class Ctx:
         self.written: set[str] = set()
         self._wf_done: set = set()
         self._assumed_goals: set = set()
+        self.used_contracts: set = set()
 
     # -- fresh symbols -----------------------------------------------------
     def fresh(self, ty: Ty, hint: str = "v") -> SV:
